@@ -71,8 +71,13 @@ def build_harness():
 
 # ----------------------------------------------------------------------------- TLC
 
+import itertools, threading
+_MD_SEQ = itertools.count()
+
+
 def _metadir(tag):
-    d = os.path.join(OUT, "tlc", "%s-%d" % (tag, os.getpid()))
+    # (unique per call: several TLC runs with the same tag may be in flight in one process)
+    d = os.path.join(OUT, "tlc", "%s-%d-%d" % (tag, os.getpid(), next(_MD_SEQ)))
     os.makedirs(d, exist_ok=True)
     return d
 
